@@ -573,8 +573,17 @@ def check_get_scores(ctx):
             kx = st[-1]["indices"][0]
             back = form.apply("getitem", [Rat.sym("self._get_scores_cache"), kx if isinstance(kx, (Rat, tuple)) else (kx,)])
             back0 = form.apply("getitem", [back, Rat.const(0)])
-            items = [(pre, v)] if (v.equals(memo_r) or v.equals(first) or v.equals(back) or v.equals(back0)) else _guarded_leaves(v, pre)
-            hit = any(isinstance(c_, Rat) and "_get_scores_cache" in c_.key() and pol for c_, pol in o.conds)
+            items = [(pre, v)] if (v.equals(memo_r) or v.equals(first) or v.equals(back) or v.equals(back0)) else _guarded_leaves(v, pre, stop=(memo_r, first, back, back0))
+            def _is_hit(c_, pol):
+                if not (isinstance(c_, Rat) and "_get_scores_cache" in c_.key()):
+                    return False
+                a_ = c_.as_atom()
+                if a_ is not None and a_.func in ("or", "and"):
+                    return False                     # a joined hit-or-miss path: what it returns is checked like a miss
+                if a_ is not None and (a_.func == "notin" or (a_.func.startswith("expr:") and " not in " in a_.func)):
+                    return not pol                   # `if key not in cache:` taken = the MISS path
+                return pol
+            hit = any(_is_hit(c_, pol) for c_, pol in o.conds)
             if hit:
                 continue                       # the cache-hit path (checked by C18)
             for cnd, leaf in items:
@@ -593,12 +602,16 @@ def check_get_scores(ctx):
     ctx.floor("C01.2", 16)
 
 
-def _guarded_leaves(v, pre):
+def _guarded_leaves(v, pre, stop=()):
+    """(condition, leaf) pairs of a nest of conditional expressions; a sub-value equal to one of ``stop`` is a leaf even when it is
+    itself conditional (`scores[0] if single else scores` with scores a conditional value)."""
     from .. import boolq
     at = v.as_atom("ifexp") if isinstance(v, Rat) else None
+    if at is not None and any(isinstance(s_, Rat) and v.equals(s_) for s_ in stop):
+        return [(pre, v)]
     if at is not None and all(isinstance(x, Rat) for x in at.args):
         c = boolq.prop(at.args[0])
-        return _guarded_leaves(at.args[1], ("and", [pre, c])) + _guarded_leaves(at.args[2], ("and", [pre, ("not", c)]))
+        return _guarded_leaves(at.args[1], ("and", [pre, c]), stop) + _guarded_leaves(at.args[2], ("and", [pre, ("not", c)]), stop)
     return [(pre, v)]
 
 
